@@ -350,13 +350,13 @@ type history struct {
 	old   []pubEntry            // tokens whose records maintenance removed
 
 	// oracle state carried over quiescent points (see oracle.go)
-	fixed     map[string]tval   // consistent key -> token fixed by the first call
-	live      map[string]tval   // (ctx,type,token) -> value, for tokens whose records exist
-	disabledK map[string]bool   // keys / tokens that were disabled by the last disable step
-	reenabled map[string]bool   // keys / tokens that were disabled and then enabled back by the last enable step
-	visits    int64             // metadata visits done by the background visitor
-	dead      bool              // a maintenance effect check failed: the rest of the script is skipped
-	contended map[string]bool   // consistent keys whose first calls overlapped in time
+	fixed     map[string]tval // consistent key -> token fixed by the first call
+	live      map[string]tval // (ctx,type,token) -> value, for tokens whose records exist
+	disabledK map[string]bool // keys / tokens that were disabled by the last disable step
+	reenabled map[string]bool // keys / tokens that were disabled and then enabled back by the last enable step
+	visits    int64           // metadata visits done by the background visitor
+	dead      bool            // a maintenance effect check failed: the rest of the script is skipped
+	contended map[string]bool // consistent keys whose first calls overlapped in time
 }
 
 func pubKey(ctx, val int) string { return fmt.Sprintf("%d/%d", ctx, val) }
